@@ -69,6 +69,9 @@ MENU = [
     ("pop e[1]", "mut", "e", ["k0"]), ("g[1] append= 5", "mut", "g", ["k0"]), ("g[1][2] = 7", "mut", "g", ["k0"]), ("g[2] append= 1", "mut", "g", ["k1"]),
     # the dict / set operators named in the property, swaps and tuple assignments into indexed targets (two index-assignments each)
     ("d |.= 7", "mut", "d", []), ("d |..= [8, 9]", "mut", "d", []), ("d -.= 5", "mut", "d", []), ("d ||= {7: 7}", "mut", "d", []), ("remove d[5]", "mut", "d", []),
+    # remove at the end of a NESTED row / field / dict entry (the flat form is above)
+    ("remove m[1][-1]", "mut", "m", [1]), ("remove q[fld][-1]", "mut", "q", ["f0"]), ("remove q::fld[-1]", "mut", "q", ["f0"]), ("remove e[1][-1]", "mut", "e", ["k0"]),
+    ("remove g[1][-1]", "mut", "g", ["k0"]),
     ("swap a[0], a[1]", "mut", "a", []), ("swap m[1][0], m[1][1]", "mut", "m", [1]), ("a[0], a[1] = 1, 2", "mut", "a", []),
     ("b[0] = 1", "mut", "b", []), ("b[1][1] = 1", "mut", "b", [1]), ("c[0][0] = 1", "mut", "c", [0]), ("b[fld][0] = 1", "mut", "b", ["f0"]),
     ("b = a", "share", None, None), ("b = m", "share", None, None), ("b = m[1]", "share", None, None), ("b = d", "share", None, None),
@@ -257,6 +260,10 @@ LOOPS = [
     ("list-tuple-assign", "x := list(1 to {n})", "for (i <- 0 til {k}) x[0], x[i % {n}] = i, i"),
     ("rows", "x := (1 to 8) map (\\r -> list(1 to {n}))", "for (i <- 0 til {k}) x[i % 8][i % {n}] = i"),
     ("row-append", "x := [[], list(1 to {n})]", "for (i <- 0 til {k}) x[1] append= i"),
+    ("row-remove-end", "x := [[], list(1 to {n})]", "for (i <- 1 to {k}) remove x[1][-1]"),
+    ("row-pop", "x := [[], list(1 to {n})]", "for (i <- 1 to {k}) pop x[1]"),
+    ("struct-field-remove-end", "struct Foo (fld, num); x := Foo(list(1 to {n}), 0)", "for (i <- 1 to {k}) remove x[fld][-1]"),
+    ("dict-entry-remove-end", "x := {{1: list(1 to {n})}}", "for (i <- 1 to {k}) remove x[1][-1]"),
     ("vector", "x := vector(list(1 to {n}))", "for (i <- 0 til {k}) x[i % {n}] = i"),
     ("bytes", "x := bytes((1 to {n}) map (% 256))", "for (i <- 0 til {k}) x[i % {n}] = i % 256"),
     ("struct-field-append", "struct Foo (fld, num); x := Foo(list(1 to {n}), 0)", "for (i <- 0 til {k}) x[fld] append= i"),
